@@ -4,4 +4,5 @@ import ElkVerif.Props.C22
   add_span_calendar, datetime_add_span_calendar, sub_span_calendar, add_days_exact, month_add_clamp_spec, range_checked,
   diff_fieldwise, diff_add_witness, diffAddInverse_fails, diff_add_partial,
   format_parse_negative_year_witness, format_parse_five_digit_year_witness, formatParseRoundtrip_fails,
-  dateString_eq_format, format_parse_roundtrip_partial]
+  dateString_eq_format, format_parse_roundtrip_partial,
+  zone_offset_roundtrip, zone_offset_seconds_witness]
